@@ -39,6 +39,9 @@ type FibStrategy interface {
 	FindStrategyEnc(name enc.Name) enc.Name
 	InsertNextHopEnc(name enc.Name, nextHop uint64, cost uint64)
 	ClearNextHopsEnc(name enc.Name)
+	// ReplaceNextHopsEnc replaces all nexthops (face -> cost) of the prefix in one
+	// step, so that a concurrent lookup sees either the old or the new set
+	ReplaceNextHopsEnc(name enc.Name, nexthops map[uint64]uint64)
 	RemoveNextHopEnc(name enc.Name, nextHop uint64)
 	GetAllFIBEntries() []FibStrategyEntry
 	SetStrategyEnc(name enc.Name, strategy enc.Name)
